@@ -629,6 +629,20 @@ func extractPipe(w *strings.Builder) error {
 		}
 	}
 	fmt.Fprintf(w, "def listRequestRanges : List String := %s\n", leanStrList(listRequestRanges))
+	// API.ToJ5Proto(): which wrappers the field / root / method conversions build (Pipe/SwaggerProto.lean `toProto`)
+	toJ5FieldWrappers := []string{}
+	for _, recv := range []string{"ObjectField", "OneofField", "EnumField"} {
+		toJ5FieldWrappers = append(toJ5FieldWrappers, recv+": "+strings.Join(compositeTypes("lib/j5schema/field_schema.go", recv, "ToJ5Field"), " "))
+	}
+	clientRootWrappers := []string{
+		"ObjectSchema.ToJ5ClientRoot: " + strings.Join(compositeTypes("lib/j5schema/root_schema.go", "ObjectSchema", "ToJ5ClientRoot"), " "),
+		"OneofSchema.ToJ5Root: " + strings.Join(compositeTypes("lib/j5schema/root_schema.go", "OneofSchema", "ToJ5Root"), " "),
+		"EnumSchema.ToJ5Root: " + strings.Join(compositeTypes("lib/j5schema/root_schema.go", "EnumSchema", "ToJ5Root"), " "),
+	}
+	methodRequestField := keyValueOf("internal/j5client/j5package.go", "Method", "ToJ5Proto", "Request")
+	fmt.Fprintf(w, "def toJ5FieldWrappers : List String := %s\n", leanStrList(toJ5FieldWrappers))
+	fmt.Fprintf(w, "def clientRootWrappers : List String := %s\n", leanStrList(clientRootWrappers))
+	fmt.Fprintf(w, "def methodRequestField : String := %s\n", leanStr(methodRequestField))
 	fmt.Fprintf(w, "def swaggerOperationSkeleton : List String := %s\n", leanStrList(swaggerOperationSkeleton))
 	fmt.Fprintf(w, "def swaggerObjectSkeleton : List String := %s\n", leanStrList(swaggerObjectSkeleton))
 	fmt.Fprintf(w, "def swaggerOneofSkeleton : List String := %s\n", leanStrList(swaggerOneofSkeleton))
@@ -740,6 +754,65 @@ func skeleton(file, fn string) []string {
 			}
 		}
 		return true
+	})
+	return out
+}
+
+// methodOf: the method `name` with receiver type `recv` (pointer or value) of a file.
+func methodOf(file, recv, name string) *ast.FuncDecl {
+	_, f, err := parseFile(file)
+	if err != nil {
+		return nil
+	}
+	for _, d := range f.Decls {
+		fd, ok := d.(*ast.FuncDecl)
+		if !ok || fd.Name.Name != name || fd.Recv == nil || len(fd.Recv.List) != 1 {
+			continue
+		}
+		rt := fd.Recv.List[0].Type
+		if st, ok := rt.(*ast.StarExpr); ok {
+			rt = st.X
+		}
+		if id, ok := rt.(*ast.Ident); ok && id.Name == recv {
+			return fd
+		}
+	}
+	return nil
+}
+
+// compositeTypes: the type names of the composite literals of a method body, in source order
+// (["<not found>"] when the method does not exist).
+func compositeTypes(file, recv, name string) []string {
+	fd := methodOf(file, recv, name)
+	if fd == nil || fd.Body == nil {
+		return []string{"<" + recv + "." + name + " not found>"}
+	}
+	out := []string{}
+	ast.Inspect(fd.Body, func(n ast.Node) bool {
+		if cl, ok := n.(*ast.CompositeLit); ok && cl.Type != nil {
+			out = append(out, exprString(cl.Type))
+		}
+		return true
+	})
+	return out
+}
+
+// keyValueOf: the value given to `key` in the first composite literal of a method that sets it.
+func keyValueOf(file, recv, name, key string) string {
+	fd := methodOf(file, recv, name)
+	if fd == nil || fd.Body == nil {
+		return "<" + recv + "." + name + " not found>"
+	}
+	out := "<" + key + " not set>"
+	done := false
+	ast.Inspect(fd.Body, func(n ast.Node) bool {
+		if kv, ok := n.(*ast.KeyValueExpr); ok && !done {
+			if id, ok := kv.Key.(*ast.Ident); ok && id.Name == key {
+				out = exprString(kv.Value)
+				done = true
+			}
+		}
+		return !done
 	})
 	return out
 }
